@@ -23,3 +23,40 @@ package dir
 //@   invariant done:  forall j int :: 0 <= j && j <= i ==> rootDirs[j] == pathClean(old(rootDirs[j]))
 //@   invariant todo:  forall j int :: i < j && j < len(rootDirs) ==> rootDirs[j] == old(rootDirs[j])
 //@   invariant outer: 0 <= i && i < len(rootDirs)
+
+// ---- the registry of directories: r.dirs (path -> directory) and r.counts (root -> number of registered
+// directories); the four operations keep the two in step ----
+//@ pure func dirPath(d model.Dir) string = pathJoin(d.Root, d.Name)
+
+// Add registers a directory again after deletions made room in it; registering twice changes nothing.
+//@ func (*Repo).Add
+//@   requires wf:      r != nil && r.dirs != nil && r.counts != nil
+//@   modifies map[string]model.Dir, map[string]uint64, model.Dir.*
+//@   ensures  ok:      result == nil && has(r.dirs, dirPath(dir))
+//@   ensures  known:   old(has(r.dirs, dirPath(dir))) ==> forall k string :: r.counts[k] == old(r.counts[k])
+//@   ensures  fresh:   !old(has(r.dirs, dirPath(dir))) ==> has(r.counts, dir.Root) && r.counts[dir.Root] == old(ite(has(r.counts, dir.Root), r.counts[dir.Root], 0)) + 1 &&
+//@                        r.dirs[dirPath(dir)].Root == dir.Root && r.dirs[dirPath(dir)].Name == dir.Name &&
+//@                        forall k string :: k != dir.Root ==> r.counts[k] == old(r.counts[k])
+//@   ensures  others:  forall p string :: p != dirPath(dir) ==> has(r.dirs, p) == old(has(r.dirs, p))
+
+// Remove retires a directory (it is full); removing an unknown directory changes nothing.
+//@ func (*Repo).Remove
+//@   requires wf:      r != nil && r.dirs != nil && r.counts != nil
+//@   modifies map[string]model.Dir, map[string]uint64
+//@   ensures  ok:      result == nil && !has(r.dirs, dirPath(dir))
+//@   ensures  unknown: !old(has(r.dirs, dirPath(dir))) ==> forall k string :: r.counts[k] == old(r.counts[k])
+//@   ensures  known:   old(has(r.dirs, dirPath(dir))) ==> r.counts[dir.Root] == old(ite(has(r.counts, dir.Root), r.counts[dir.Root], 0)) - 1 &&
+//@                        forall k string :: k != dir.Root ==> r.counts[k] == old(r.counts[k])
+//@   ensures  others:  forall p string :: p != dirPath(dir) ==> has(r.dirs, p) == old(has(r.dirs, p))
+
+// GetRoots reports every configured root with the number of directories registered in it.
+//@ func (*Repo).GetRoots
+//@   requires wf:      r != nil
+//@   modifies mem[string], model.Root.*
+//@   ensures  all:     result1 == nil && len(result0) == len(r.roots) &&
+//@                        forall i int :: 0 <= i && i < len(r.roots) ==> result0[i].Path == r.roots[i] && result0[i].Count == ite(has(r.counts, r.roots[i]), r.counts[r.roots[i]], 0)
+//@ loop (*Repo).GetRoots#1
+//@   invariant idx:    -1 <= rangeindex && rangeindex + 1 <= len(r.roots) && len(roots) == rangeindex + 1
+//@   decreases len(r.roots) - rangeindex
+//@   invariant own:    backing(roots) == nil || fresh(backing(roots))
+//@   invariant done:   forall i int :: 0 <= i && i <= rangeindex ==> roots[i].Path == r.roots[i] && roots[i].Count == ite(has(r.counts, r.roots[i]), r.counts[r.roots[i]], 0)
